@@ -89,7 +89,7 @@ def op_models(op, tier='quick'):
     for xs in (('S4', 'S43') if op in ('EMBEDDING_LOOKUP', 'DEPTHWISE_CONV_2D',
                                       'FULLY_CONNECTED') else ('S4',)):
       out.append(irm.single([irm.op(op, v, [0] * ar)], x=xs))
-  if tier == 'thorough':
+  if True:
     # the operator inside a small context: fed by / feeding another operator
     v, ar = irm.VARIANTS[op][0]
     if ar >= 1:
